@@ -27,11 +27,12 @@ TUNITS_Q = [("K", 0), ("K", 3), ("K", -3), ("Cel", 0), ("degF", 0), ("degR", 0)]
 TUNITS_T = TUNITS_Q + [("K", 2), ("K", -2), ("K", -1)]
 RESTS = [("", "Hz", -1), ("k", "Hz", -1), ("", "m", -2), ("c", "m", -2), ("", "min", -1)]
 RESTS_T = RESTS + [("M", "Hz", -1), ("", "s", -1), ("m", "s", -1), ("", "sr", -1), ("k", "m", -2), ("", "h", -1)]
-LEVELS_B = [-3.0, -0.35, 0.0, 0.602, 1.7, 3.9, 9.0]         # levels in bels (harness-chosen inputs)
-LINEARS = [1e-3, 0.5, 1.0, 7.389, 110.0, 1000.0]             # positive linear magnitudes
+# inputs over the physically meaningful range: thermal noise is -174 dBm, attenuations / gains of 1e-18 .. 1e18
+LEVELS_B = [-20.0, -17.4, -3.0, -0.35, 0.0, 0.602, 1.7, 3.9, 9.0, 15.0]         # levels in bels (harness-chosen inputs)
+LINEARS = [1e-18, 4.0e-21, 2.2e-16, 1e-3, 0.5, 1.0, 7.389, 110.0, 1000.0, 1e15]   # positive linear magnitudes
 LEVELS_B_T = LEVELS_B + [-12.0, -1.234, 0.05, 2.2, 6.66, 13.0]
 LINEARS_T = LINEARS + [1e-9, 2.5e-7, 3.16228, 20e-6, 1e6, 4.2e9]
-SUMS_DB = [(1, 2), (87, 83), (20, 23), (0, 0), (-10, -3), (30, 30), (6.5, 6.4)]
+SUMS_DB = [(1, 2), (87, 83), (20, 23), (0, 0), (-10, -3), (30, 30), (6.5, 6.4), (-174, -171), (120, 118), (3, 3)]
 
 
 def composite_devs():
@@ -90,6 +91,7 @@ def log_cfg(devs):
   OneChar = TRUE
   KnownDevs = {C.tla_str(devs)}
   Emit = TRUE
+  LatMax = 20
   LinPrefixes = {'{"m", "u", "k"}' if C.tier() == "quick" else '{"m", "u", "k", "M", "n", "c"}'}
   Rests <- MCRests
 INIT Init
@@ -168,11 +170,11 @@ def replay_log(rec):
     else:
         off = [L / scale for L in (LEVELS_B_T if thorough else LEVELS_B)]
         if kind in ("log_ratio",) and u.endswith("Np"):
-            off = [L / scale for L in (-1.0, -0.115, 0.0, 0.5, 1.0, 3.0)]
+            off = [L / scale for L in (-20.0, -1.0, -0.115, 0.0, 0.5, 1.0, 3.0, 20.0)]
     # seeded inputs on top of the fixed ones
     rnd = random.Random(C.seed() * 7919 + zlib.crc32((u + ">" + v).encode()))
     for _ in range(2 if not thorough else 6):
-        off.append(10.0 ** rnd.uniform(-6, 6) if rec["positive"] else rnd.uniform(-5.0, 10.0) / scale)
+        off.append(10.0 ** rnd.uniform(-20, 20) if rec["positive"] else rnd.uniform(-20.0, 20.0) / scale)
     for x in off:
         with np.errstate(all="ignore"):
             e = float(A.ev(rec["expect"], tabs, np.float64(x)))
@@ -180,7 +182,8 @@ def replay_log(rec):
             xs.append(float(x)); exps.append(e)
     st, failure, det, nobs = check_pair(u, v, xs, exps, rel, abs_, optional=rec["optional"])
     if st == "ok":
-        rt = round_trip(u, v, xs, max(rel, 1e-9), 1e-9); nobs += len(xs)
+        # a linear magnitude must come back relatively exact (it may be 1e-20); a level may be 0
+        rt = round_trip(u, v, xs, max(rel, 1e-9), 0.0 if rec["positive"] else 1e-9); nobs += len(xs)
         if rt[0] == "violation":
             st, failure, det = "violation", "round_trip", rt[1]
     if st == "ok" and rec["mach"] == "reject":
@@ -193,6 +196,7 @@ def replay_sum(rec):
     from scinumtools.units import Quantity
     u = rec["a"]
     scale = float(A.ev(rec["scale"], tabs))
+    alias = rec.get("alias", "distinct")
     nobs = 0
     for a_db, b_db in SUMS_DB:
         if rec["sign"] < 0:
@@ -200,15 +204,28 @@ def replay_sum(rec):
             if a_db == b_db:
                 continue
         x, y = a_db / 10.0 / scale, b_db / 10.0 / scale
-        with np.errstate(all="ignore"):
-            e = float(A.ev(rec["expect"], tabs, np.float64(x), np.float64(y)))
         try:
-            q = (Quantity(x, u) + Quantity(y, u)) if rec["sign"] > 0 else (Quantity(x, u) - Quantity(y, u))
+            if alias == "same_object":            # one quantity on both sides of the operator
+                q0 = Quantity(x, u)
+                q = q0 + q0
+                args = (x, x)
+            elif alias == "sum_of_sum":           # the result of a level sum added to itself
+                s0 = Quantity(x, u) + Quantity(y, u)
+                sv = float(s0.magnitude.value)
+                q = s0 + s0
+                args = (sv, sv)
+            else:
+                q = (Quantity(x, u) + Quantity(y, u)) if rec["sign"] > 0 else (Quantity(x, u) - Quantity(y, u))
+                args = (x, y)
             got = float(q.magnitude.value); unit = q.baseunits.expression; nobs += 1
         except Exception as ex:
-            return ("violation", "refused_valid", {"expected": e, "observed": repr(ex)[:200], "x": [x, y], "clause": "levels in the same bel-type unit can be added / subtracted"}, nobs + 1)
+            return ("violation", "refused_valid", {"expected": "a level", "observed": repr(ex)[:200], "x": [x, y], "clause": "levels in the same bel-type unit can be added / subtracted"}, nobs + 1)
+        with np.errstate(all="ignore"):
+            e = float(A.ev(rec["expect"], tabs, np.float64(args[0]), np.float64(args[1])))
+        if not np.isfinite(e):
+            continue
         if not A.close(got, e, 1e-9, 1e-9) or unit != u:
-            return ("violation", "wrong_value", {"expected": [e, u], "observed": [got, unit], "x": [x, y],
+            return ("violation", "wrong_value", {"expected": [e, u], "observed": [got, unit], "x": list(args), "operands": alias,
                                                  "clause": "a (+-) b = 10 log10(10^(a/10) +- 10^(b/10)) dB, in the unit of the operands"}, nobs)
     return ("ok", None, None, nobs)
 
@@ -309,7 +326,7 @@ def run(replay=None):
             V.ok()
     samples += [{k: x[k] for k in ("a", "b", "kind", "expect", "lattice", "tol", "tags")} for x in
                 [y for y in precs if y["kind"] == "log_lin"][:1] + [y for y in precs if y["st"] == "frac"][:1]]
-    samples += [{k: x[k] for k in ("a", "sign", "expect")} for x in srecs[:1]]
+    samples += [{k: x[k] for k in ("a", "sign", "alias", "expect")} for x in srecs[:1]]
     unref = [x for x in precs if x["mach"] == "reject" and not x["optional"] and not x["known"]]
     if unref:
         V.notes.append(f"TLC: the code's table has no conversion for {len(unref)} documented pair(s), e.g. {unref[0]['a']} -> {unref[0]['b']}")
@@ -320,10 +337,10 @@ def run(replay=None):
         "traces_validated_against_impl": len(r1.records) + len(precs) + len(srecs),
         "evaluations": nobs, "distinct_nontrivial": len(nontrivial),
         "rule": f"temperature: all ordered pairs of {len(TUNITS_Q if tier == 'quick' else TUNITS_T)} temperature units (K with prefixes, Cel, degF, degR) x {len(grid)} rational inputs (40 fixed + seeded) at or above absolute zero (TLC, exact "
-                "rationals, exhaustive); logarithmic: every documented bel-type unit on the lattice ref*10^n, n in -3..3 (TLC, exact), every "
-                "documented pair of sides with all admissible prefixes on the log side and none/m/u/k on the linear side, fraction forms with "
-                f"{len(RESTS if tier == 'quick' else RESTS_T)} denominators, same-unit and derived dB<->dB pairs, on 5 lattice points and 6-7 off-lattice inputs each, level "
-                "sums and differences in every bel-type unit; non-trivial = distinct (pair, input) with different units / distinct log pairs / sums",
+                "rationals, exhaustive); logarithmic: every documented bel-type unit on the lattice ref*10^n, n in -20..20 (TLC, exact), every "
+                "documented pair of sides with all admissible prefixes on the log side and none/m/u/k on the linear side (levels -200..+150 dB, linear magnitudes 1e-21..1e20), fraction forms with "
+                f"{len(RESTS if tier == 'quick' else RESTS_T)} denominators, same-unit and derived dB<->dB pairs, on 9 lattice points and 10-12 off-lattice inputs each, level "
+                "sums and differences in every bel-type unit, also of a quantity with itself and of a sum with itself; non-trivial = distinct (pair, input) with different units / distinct log pairs / sums",
         "samples": samples, "exhaustive": True, "classes": classes,
         "tlc": {"temperature": [r1.distinct, r1.violated or "ok"], "log": [r2.distinct, r2.violated or "ok"]},
     })
